@@ -202,7 +202,14 @@ pub fn act_oracle_fault(sim: &mut Sim, ctx: &mut Ctx) -> Option<Tx> {
             let est = est_max_borrow(sim, &ma, &b.keys.bank).unwrap_or(10);
             Some(Tx::one("user", ix::borrow(&b.keys, ma, u.authority, ta, (est / 4).max(1), rm)))
         }
-        2 => act_withdraw_boundary(sim, ctx),
+        2 => {
+            if ctx.rng.chance(1, 2) {
+                act_withdraw_boundary(sim, ctx)
+            } else {
+                // a receivership bracket right after the fault: seizure at the doctored price
+                crate::actors_tx::act_bracket(sim, ctx, crate::actors_tx::BracketKind::Liquidation)
+            }
+        }
         3 => act_hunter(sim, ctx),
         _ => {
             let mut rm = risk_metas(&sim.store, &ma, None, None);
